@@ -32,11 +32,12 @@ const (
 	rfHdrVers      // change the version field
 	rfFinBefore    // end the stream right before record idx (drop the tail)
 	rfFinMidHeader // end the stream inside the 5-byte header of record idx
+	rfInjectPlain  // insert an unprotected record (ChangeCipherSpec, alert, handshake or application data) before record idx
 	rfCrossConn    // insert a protected record captured from an earlier connection (same suite, different keys)
 	rfCount
 )
 
-var rfNames = []string{"none", "bitflip", "truncate+close", "truncate+fix-length", "extend", "length-field+n", "drop", "duplicate", "swap-adjacent", "replay-earlier", "cross-direction-inject", "header-type", "header-version", "fin-before-record", "fin-mid-header", "cross-connection-inject"}
+var rfNames = []string{"none", "bitflip", "truncate+close", "truncate+fix-length", "extend", "length-field+n", "drop", "duplicate", "swap-adjacent", "replay-earlier", "cross-direction-inject", "header-type", "header-version", "fin-before-record", "fin-mid-header", "inject-cleartext-record", "cross-connection-inject"}
 
 var attackFaults = rfNames[1:]
 var attackReach = []string{"fault-on-finished", "fault-on-appdata", "fault-on-close-notify", "fatal-alert-seen", "eof-style-end", "exact-prefix-checked", "sticky-error-checked", "gm-cbc", "gm-gcm", "tls-path", "no-fault-fired", "nonce-audit", "header-bit", "iv-or-nonce-bit", "body-bit", "mac-or-tag-bit", "sweep-run", "long-session", "replay-at-distance>=255"}
@@ -386,6 +387,31 @@ func (rl *relay) apply(rec []byte, idx int) bool {
 		}
 		fire(idx)
 		rl.dst.Write(rl.other.last)
+		rl.dst.Write(rec)
+	case rfInjectPlain:
+		var m []byte
+		switch f.Val % 9 {
+		case 0:
+			m = []byte{20, rec[1], rec[2], 0, 1, 1} // ChangeCipherSpec
+		case 1:
+			m = []byte{21, rec[1], rec[2], 0, 2, 1, 0} // warning close_notify
+		case 2:
+			m = []byte{21, rec[1], rec[2], 0, 2, 1, byte(f.N)} // some warning
+		case 3:
+			m = []byte{21, rec[1], rec[2], 0, 2, 2, 40} // fatal handshake_failure
+		case 4:
+			m = []byte{22, rec[1], rec[2], 0, 4, 0, 0, 0, 0} // HelloRequest
+		case 5:
+			m = []byte{23, rec[1], rec[2], 0, 1, 'x'} // application data
+		case 6:
+			m = []byte{20, rec[1], rec[2], 0, 0} // empty ChangeCipherSpec
+		case 7:
+			m = []byte{23, rec[1], rec[2], 0, 0} // empty application data
+		case 8:
+			m = []byte{21, rec[1], rec[2], 0, 1, 1} // one-byte alert
+		}
+		fire(idx)
+		rl.dst.Write(m)
 		rl.dst.Write(rec)
 	case rfCrossConn:
 		if rl.foreign == nil {
@@ -987,7 +1013,12 @@ func runRecordPadding(c *simkit.Choice, r *simkit.Rec) {
 	pos := c.Choose(256, simkit.LFault)
 	inner := simkit.NewChoice(uint64(ss)*40503 + 3)
 	n := inner.Range(1, 300, simkit.LScen)
-	payload := drawData(inner, n)
+	payload := drawData(inner, n+15)
+	// the content length is adjusted so that the requested padding length is a
+	// legal one for this record (content + 32-byte MAC + padding + length byte fill
+	// whole blocks): every length 0..255 is exercised exactly, not rounded
+	n += (16 - (n+33+padLen)%16) % 16
+	payload = payload[:n]
 	pre := drawData(inner, inner.Range(1, 100, simkit.LScen))
 	entS := simkit.NewStream(uint64(inner.Choose(1<<31, simkit.LEntropy)) + 71)
 	entC := simkit.NewStream(uint64(inner.Choose(1<<31, simkit.LEntropy)) + 73)
